@@ -31,10 +31,37 @@ pub mod replay {
     }
 }
 
+
+/// Under Kani all symbolic bytes come from ONE symbolic array drawn at first use: the counterexample
+/// trace then always lists every input (as elements of that array) even when CBMC's formula slicing
+/// removed the ones a failing property does not depend on, so the trace-generating pass can keep
+/// slicing on and stays within the memory of the deciding pass.
+#[cfg(kani)]
+pub const POOL_N: usize = 200;
+#[cfg(kani)]
+pub static mut POOL: [u8; POOL_N] = [0; POOL_N];
+#[cfg(kani)]
+pub static mut POOL_POS: usize = 0;
+#[cfg(kani)]
+pub static mut POOL_INIT: bool = false;
+#[cfg(kani)]
+#[inline(always)]
+fn pool_byte() -> u8 {
+    unsafe {
+        if !POOL_INIT {
+            POOL = kani::any();
+            POOL_INIT = true;
+        }
+        assert!(POOL_POS < POOL_N, "harness bound: symbolic input pool exhausted");
+        let b = POOL[POOL_POS];
+        POOL_POS += 1;
+        b
+    }
+}
 #[cfg(kani)]
 #[inline(always)]
 pub fn u8() -> u8 {
-    kani::any()
+    pool_byte()
 }
 #[cfg(not(kani))]
 pub fn u8() -> u8 {
@@ -43,29 +70,29 @@ pub fn u8() -> u8 {
 #[cfg(kani)]
 #[inline(always)]
 pub fn u16() -> u16 {
-    kani::any()
+    u16::from_le_bytes([pool_byte(), pool_byte()])
 }
 #[cfg(not(kani))]
 pub fn u16() -> u16 {
-    let v = replay::pop(2);
-    u16::from_le_bytes([v[0], v[1]])
+    u16::from_le_bytes([replay::pop(1)[0], replay::pop(1)[0]])
 }
 #[cfg(kani)]
 #[inline(always)]
 pub fn u64() -> u64 {
-    kani::any()
+    u64::from_le_bytes([pool_byte(), pool_byte(), pool_byte(), pool_byte(), pool_byte(), pool_byte(), pool_byte(), pool_byte()])
 }
 #[cfg(not(kani))]
 pub fn u64() -> u64 {
-    let v = replay::pop(8);
     let mut a = [0u8; 8];
-    a.copy_from_slice(&v);
+    for x in a.iter_mut() {
+        *x = replay::pop(1)[0];
+    }
     u64::from_le_bytes(a)
 }
 #[cfg(kani)]
 #[inline(always)]
 pub fn usize() -> usize {
-    kani::any()
+    u64() as usize
 }
 #[cfg(not(kani))]
 pub fn usize() -> usize {
@@ -82,7 +109,17 @@ pub fn bool() -> bool {
 pub fn bytes<const N: usize>() -> [u8; N] {
     #[cfg(kani)]
     {
-        kani::any()
+        unsafe {
+            if !POOL_INIT {
+                POOL = kani::any();
+                POOL_INIT = true;
+            }
+            assert!(POOL_POS + N <= POOL_N, "harness bound: symbolic input pool exhausted");
+            let mut a = [0u8; N];
+            a.copy_from_slice(&POOL[POOL_POS..POOL_POS + N]);
+            POOL_POS += N;
+            a
+        }
     }
     #[cfg(not(kani))]
     {
